@@ -158,8 +158,11 @@ def entries():
     add("EpistemicUncertaintySampling(precompute)", "EpistemicUncertaintySampling", {"precompute": True},
         model="clf_freq", samplewise=True)
     for m in ("misclassification_loss", "log_loss"):
-        add("MonteCarloEER(%s)" % m, "MonteCarloEER", {"method": m}, model="clf", samplewise=False, cost=2)
-    add("ValueOfInformationEER", "ValueOfInformationEER", model="clf", rows=False, cost=2)
+        # the evaluation set is all of X (X_eval=None): the score of a candidate does not depend on the others
+        add("MonteCarloEER(%s)" % m, "MonteCarloEER", {"method": m}, model="clf", samplewise=True,
+            arbitrary_idx=False, cost=2)
+    add("ValueOfInformationEER", "ValueOfInformationEER", model="clf", rows=False, samplewise=True,
+        arbitrary_idx=False, cost=2)
     add("QueryByCommittee(KL_divergence)", "QueryByCommittee", {"method": "KL_divergence"}, model="ensemble",
         samplewise=True)
     # the vote based methods use the members' hard predictions, whose ties are broken at random per row
